@@ -13,6 +13,11 @@ import (
 // TestSelfModel: the three implementations of the exact open-box segment test (int64 fractions,
 // float64 filter, math/big) agree wherever more than one applies. A disagreement is a harness fault.
 func TestSelfModel(t *testing.T) {
+	// Case.O is +1 / -1 and is handed to smartclip as orb.Orientation(c.O); the oracle's own signed areas use
+	// "positive = counter-clockwise". Pin the meaning of the library's constants.
+	if orb.CCW != 1 || orb.CW != -1 {
+		t.Fatalf("HARNESS: orb.CCW = %d, orb.CW = %d; the check assumes +1 / -1", orb.CCW, orb.CW)
+	}
 	// exhaustive: half-integer lattice segments 0..3 step 0.5 against half-integer boxes
 	var vals []float64
 	for v := 0.0; v <= 3; v += 0.5 {
